@@ -219,6 +219,11 @@ func (u *Unit) callMods(c *ssa.CallCommon, m *modSet, seen map[*ssa.Function]boo
 			u.fnMods(target, m, seen)
 			return
 		}
+		// a function that is new relative to the baseline is verified as part of its caller (see Frame.spliced)
+		if h := u.splicedHelper(c, nil); h != nil {
+			u.fnMods(h, m, seen)
+			return
+		}
 	}
 	if benign(name) {
 		return
